@@ -4,6 +4,7 @@ refactorings (patch.diff files); any VIOLATED/UNDECIDED line is a false alarm.
 usage: benigncheck.py <dir-with-variants>...   e.g. /tmp/ref_enc   or /verif/benign/enc_a
        --keep : copy confirmed (builds + tests pass) patches to /verif/benign/<area>_<x>/"""
 import subprocess, os, shutil, tempfile, sys, glob, json
+ROOT=os.environ.get('VERIF_ROOT') or os.path.dirname(os.path.dirname(os.path.abspath(__file__)))
 ENV=dict(os.environ,GOFLAGS='-mod=mod',GOPROXY='off',GOSUMDB='off',GOTOOLCHAIN='local')
 ALL=['C%02d'%i for i in range(1,18)]
 keep='--keep' in sys.argv
@@ -24,7 +25,7 @@ def one(p,res):
     name=os.path.basename(os.path.dirname(p.rstrip('/'))).replace('ref_','')+'_'+os.path.basename(p.rstrip('/')) if '/ref_' in p else os.path.basename(p.rstrip('/'))
     d=tempfile.mkdtemp(prefix='/tmp/benchk.')
     subprocess.run(['rsync','-a','--exclude','.git','/repo/',d+'/'],check=True)
-    r=subprocess.run('patch -p1 -s --no-backup-if-mismatch -i %s/patch.diff'%p,shell=True,cwd=d,capture_output=True,text=True)
+    r=subprocess.run('patch -p1 -s --no-backup-if-mismatch -i %s/patch.diff'%os.path.abspath(p),shell=True,cwd=d,capture_output=True,text=True)
     if r.returncode!=0:
         print(name,'PATCH DOES NOT APPLY'); shutil.rmtree(d); return
     b=subprocess.run('go build ./... && go test -vet=off -count=1 ./... 2>&1 | tail -2',shell=True,cwd=d,env=ENV,capture_output=True,text=True)
@@ -32,8 +33,8 @@ def one(p,res):
         print(name,'BUILD/TEST FAILS — not a valid benign patch:',(b.stdout+b.stderr)[-200:]); shutil.rmtree(d); return
     res['tot']+=1
     alarms={}
-    vd=tempfile.mkdtemp(prefix='/tmp/benverif.'); os.mkdir(vd+'/evidence'); shutil.copy('/verif/known_findings.json',vd)
-    o=subprocess.run(['/verif/bin/hlint','-property','all','-repo',d,'-verif',vd],capture_output=True,text=True).stdout
+    vd=tempfile.mkdtemp(prefix='/tmp/benverif.'); os.mkdir(vd+'/evidence'); shutil.copy(ROOT+'/known_findings.json',vd)
+    o=subprocess.run([ROOT+'/bin/hlint','-property','all','-repo',d,'-verif',vd],capture_output=True,text=True).stdout
     cur=None
     for l in o.splitlines():
         if l.startswith('property C'): cur=l.split()[1]
@@ -52,7 +53,7 @@ def one(p,res):
     else:
         print('%s: silent'%name)
     if keep:
-        dst='/verif/benign/'+name
+        dst=ROOT+'/benign/'+name
         os.makedirs(dst,exist_ok=True)
         shutil.copy(p+'/patch.diff',dst)
         if os.path.exists(p+'/README.md'): shutil.copy(p+'/README.md',dst)
